@@ -1,7 +1,7 @@
 """C13 — decided on the scheduler LTS (see tools/schedprops.py, coq/Conc/Sched*.v)."""
 import schedprops, schedgen
 ID = "C13"
-COQ_TARGETS = schedprops.SCHED_TARGETS + ["Extract_Sched.vo"]
+COQ_TARGETS = schedprops.SCHED_TARGETS + ["Properties_SchedMig.vo", "Extract_Sched.vo"]
 DRIVERS = ["sched"]
 
 
@@ -9,7 +9,7 @@ def gen_migrate_ss(rng, big=False):
     return schedgen.gen_migrate(rng, big, self_suspend=True)
 
 
-FAMS = [schedgen.gen_migrate, gen_migrate_ss]
+FAMS = [schedgen.gen_migrate, gen_migrate_ss, schedgen.gen_f6]
 NAME_RE = r"^C13_"
 MANIFEST = {
     "text": "Theorems (Coq, every number of units/pools, every interleaving of the scheduler LTS whose labels are the ABT_VERIF hook "
@@ -23,5 +23,6 @@ MANIFEST = {
 
 
 def run(tier, seed, replay):
-    return schedprops.run(ID, NAME_RE, FAMS, tier, seed, replay,
+    return schedprops.run(ID, NAME_RE, FAMS, tier, seed, replay, files=schedprops.SCHED_FILES + ["Properties_SchedMig.v"],
+                          known_patterns={"F6": ("# F6", r"^F6:")},
                           rule="seeded scenario families %s; every history replayed through the extracted LTS; non-trivial = all (each scenario has >= 1 unit)" % [f.__name__ for f in FAMS])
